@@ -230,6 +230,32 @@ func checkSend(r reporter, tier string) (evals, nontrivial int64) {
 				binary.LittleEndian.PutUint32(h[12:], 4242)
 				payloads = append(payloads, h)
 			}
+			// a caller-supplied Header.Len is not the caller's to choose: every preset value around the true and the
+			// aligned length (a reused message struct whose payload shrank or grew by a few bytes), 0 and 2^32-1
+			for _, preset := range append([]uint32{0, 16, 1<<32 - 1}, func() (v []uint32) {
+				for d := -8; d <= 12; d++ {
+					if x := 16 + n + d; x >= 0 {
+						v = append(v, uint32(x))
+					}
+				}
+				return
+			}()...) {
+				s.sent = s.sent[:0]
+				_, err := c.Send(syscall.NetlinkMessage{Header: syscall.NlMsghdr{Len: preset, Type: 1000, Flags: 5}, Data: base})
+				evals++
+				if err != nil || len(s.sent) != 1 {
+					r.rep("send-error", "Send(len=%d, preset Header.Len=%d) returned %v and put %d datagrams on the wire", n, preset, err, len(s.sent))
+					continue
+				}
+				d := s.sent[0]
+				if len(d.b) != 16+n {
+					r.rep("send-wire-length", "Send(payload %d bytes, preset Header.Len=%d): datagram is %d bytes, want %d", n, preset, len(d.b), 16+n)
+				} else if got := binary.LittleEndian.Uint32(d.b[0:]); got != uint32(16+n) {
+					r.rep("send-nlmsg-len", "Send(payload %d bytes, preset Header.Len=%d): nlmsg_len=%d, want %d", n, preset, got, 16+n)
+				} else if !bytes.Equal(d.b[16:], base) {
+					r.rep("send-payload", "Send(payload %d bytes, preset Header.Len=%d): payload bytes differ on the wire", n, preset)
+				}
+			}
 			for vi, payload := range payloads {
 				for pi, p := range pairs {
 					if vi > 0 && pi > 1 {
